@@ -28,3 +28,25 @@ fn txids_increase_across_reopen() {
         assert!(w[0] < w[1], "transaction ids not strictly increasing: {:?}", seen);
     }
 }
+
+#[test]
+fn last_committed_never_moves_backwards() {
+    // two overlapping sessions commit in reverse order of their start; a reader that begins afterwards must see both
+    let dir = tempfile::TempDir::new().unwrap();
+    let db = Database::create(dir.path().join("t.db"), DBConfig::default()).unwrap();
+    db.execute("CREATE TABLE t (id BIGINT, v INT)").unwrap();
+    db.execute("INSERT INTO t VALUES (1, 10)").unwrap();
+    let mut s1 = db.session().unwrap();
+    let mut s2 = db.session().unwrap();
+    s2.execute("INSERT INTO t VALUES (2, 20)").unwrap();
+    s1.execute("INSERT INTO t VALUES (3, 30)").unwrap();
+    s2.commit_transaction().unwrap();
+    s1.commit_transaction().unwrap();
+    std::mem::forget(s1);
+    std::mem::forget(s2);
+    let mut r = db.session().unwrap();
+    let n = r.execute("SELECT COUNT(*) FROM t").unwrap().into_rows().unwrap().first().unwrap()[0].as_big_int().unwrap().value();
+    let _ = r.abort_transaction();
+    std::mem::forget(r);
+    assert_eq!(n, 3, "a reader that began after both commits sees {} of 3 rows (last_committed moved backwards)", n);
+}
